@@ -21,7 +21,7 @@ func init() {
 		Explanation: "Structural conditions for schedule independence: (response-locks) every access to responseContext.errors holds errorsMu and every access to .extensions holds extensionsMu (must-lockset on every path); " +
 			"(mutation-serial) in every materialised executor the function run for `case ast.Mutation` contains no FieldSet.Concurrently call and no go statement; (slot-ownership) every function that runs on a spawned " +
 			"goroutine or is handed to FieldSet.Concurrently stores only into slots it owns (an element indexed by its own private index) and never into another captured variable; (atomic-invalids) inside such " +
-			"functions FieldSet.Invalids is only updated with atomic.AddUint32.",
+			"functions FieldSet.Invalids is only updated with atomic.AddUint32. (error-scan-total) as in C01: whether a field counts as already failed does not depend on the order in which concurrently resolving siblings recorded their errors.",
 		NotDecided:  "equality of results across schedules; absence of all data races (only the enumerated shared state is covered); user resolvers' own synchronisation",
 		Assumptions: []string{"sync.Mutex/atomic semantics"},
 	})
